@@ -213,7 +213,7 @@ Proof.
     cbn [eattrs echildren e_styles with_styles].
     rewrite (region_layout_again c dd inits st nda (Vn Hn0)); try assumption.
     + cbn [bind e_begin e_end with_styles].
-      assert ((or0 (e_begin (eattrs r1)), or_none (e_end (eattrs r1)), e_WritingModeType_lrtb, nda) = region_fp r wm nda) as Ef
+      assert ((or0 (e_begin (eattrs r1)), e_end (eattrs r1), e_WritingModeType_lrtb, nda) = region_fp r wm nda) as Ef
         by (unfold r1; rewrite eattrs_clean, Ew; reflexivity).
       rewrite Ef, H0.
       assert (rid (with_styles (eattrs r1) st) = rid (eattrs r)) as Er by (unfold r1; rewrite eattrs_clean; reflexivity).
@@ -288,31 +288,26 @@ Lemma retained_of_kept l : retained_of (map (fun r : elem => (r, @None text)) l)
 Proof. unfold retained_of. induction l as [|x l IH]; [reflexivity | cbn [map flat_map snd fst app]; f_equal; exact IH]. Qed.
 
 (* ---- idempotence ------------------------------------------------------------------------------------------------------------------ *)
+Lemma pipeline_idem c al body0 : body_pipeline c [] (body_pipeline c al body0) = body_pipeline c al body0.
+Proof.
+  unfold body_pipeline. cbv zeta. destruct body0 as [b|].
+  - destruct (c_bg c) as [cb|] eqn:Ebg, (c_color c) as [cc|] eqn:Ec, (c_pta c) eqn:Ep; cbn [option_map map];
+      repeat first [ rewrite (style_set_root _ _ _ _ (supported_ta_false _ Ep))
+                   | rewrite (style_set_root _ _ _ _ (supported_color_false _ _ Ec))
+                   | rewrite (style_apply_bg _ _ _ (supported_bg_false _ _ Ebg)) ];
+      rewrite base_elem_eq, clean_base, redirect_nil, clear_nil; reflexivity.
+  - destruct (c_bg c), (c_color c), (c_pta c); reflexivity.
+Qed.
+
 Theorem idem_thm c d d' : lcd c d = Ok d' -> region_keys_unique d -> c_sa c < 50 -> lcd c d' = Ok d'.
 Proof.
-  intros H Hu Hsa. apply lcd_ok_inv in H as [out [body4 [Ho [Hb ->]]]].
+  intros H Hu Hsa. apply lcd_ok_inv in H as [out [Ho ->]].
   pose proof (lcd_regions_rel _ _ _ _ _ _ Ho) as L.
   assert (sget (keep_styles c (d_initials d)) p_WritingMode = None) as Hiw.
   { apply sget_None_keys. intros kv Hkv E. apply In_keep_styles in Hkv as [_ Hs]. rewrite E, not_supported_wm in Hs. discriminate. }
   unfold lcd at 1. cbn [d_initials d_body d_regions d_rows d_cols d_pxh d_pxw d_active d_dar d_lang].
   rewrite keep_styles_idem.
   rewrite (loop_again c d _ _ _ _ _ L Hu Hiw Hsa). cbn [bind].
-  rewrite replaced_of_kept, retained_of_kept. cbn [map].
-  destruct (d_body d) as [b|]; cbn [option_map] in Hb.
-  - rewrite base_elem_eq in Hb. set (b1 := map_attrs (body_base c (replaced_of out)) b) in *.
-    (* the body entering the second pass is cleaned back to b1 *)
-    assert (forall b6, style_elem c b6 = style_elem c b1 ->
-                       clear_elem [] (redirect_elem [] (anim_elem (style_elem c b6))) = b1) as Hback.
-    { intros b6 E. rewrite E. unfold b1. rewrite clean_base, redirect_nil, clear_nil. reflexivity. }
-    assert (exists b4, body4 = Some b4 /\ style_elem c b4 = style_elem c b1 /\
-                       match c_bg c with None => Ok (Some b1) | Some col => Ok (Some (apply_bg col b1)) end = Ok (Some b4)) as [b4 [-> [S4 M4]]].
-    { destruct (c_bg c) as [col|] eqn:Ebg; inversion Hb; subst; eexists; (split; [reflexivity|]); split; try reflexivity.
-      apply style_apply_bg, (supported_bg_false _ _ Ebg). }
-    destruct (c_color c) as [col|] eqn:Ec; destruct (c_pta c) eqn:Ep; cbn [option_map];
-      (rewrite Hback; [cbn [bind]; destruct (c_bg c); inversion M4; subst; reflexivity|]).
-    + rewrite (style_set_root _ _ _ _ (supported_color_false _ _ Ec)). exact S4.
-    + rewrite (style_set_root _ _ _ _ (supported_ta_false _ Ep)), (style_set_root _ _ _ _ (supported_color_false _ _ Ec)). exact S4.
-    + exact S4.
-    + rewrite (style_set_root _ _ _ _ (supported_ta_false _ Ep)). exact S4.
-  - destruct (c_bg c); [discriminate|]. inversion Hb; subst. destruct (c_color c), (c_pta c); reflexivity.
+  rewrite replaced_of_kept, retained_of_kept. do 2 f_equal.
+  exact (pipeline_idem c (replaced_of out) (d_body d)).
 Qed.
